@@ -21,10 +21,13 @@ git -C /repo worktree remove --force $SCR
 echo "demo: without=$RC_WITHOUT with=$RC_WITH apply=$APPLY"
 # checks against /repo with the patch
 if [ -n "$(git -C /repo status --porcelain)" ]; then echo "/repo not clean"; exit 3; fi
+cp /verif/evidence/$PID.json /var/tmp/evidence_keep_$PID.json 2>/dev/null
 git -C /repo apply $OUT/patch.diff
 ( cd /verif && timeout 3000 ./check $PID --tier quick ) > $OUT/check.log 2>&1; RC_CHECK=$?
 cp /verif/evidence/$PID.json $OUT/evidence_with_patch.json 2>/dev/null
 git -C /repo checkout -- .
+cp /var/tmp/evidence_keep_$PID.json /verif/evidence/$PID.json 2>/dev/null
+rm -rf /verif/replay/$PID
 ( cd /verif && /venv/bin/python -m py.translate.run /repo > /dev/null 2>&1 )
 VIOL=$(grep -m1 VIOLATION $OUT/check.log)
 echo "check: rc=$RC_CHECK $VIOL"
